@@ -1396,7 +1396,7 @@ func (e *Engine) encodedFuncs(filter string) []string {
 
 var _ = token.ADD
 
-var hashUFs = map[string]bool{"sha256": true, "keccak256": true}
+var hashUFs = map[string]bool{"sha256": true, "keccak256": true, "sig": true, "sigdata": true}
 
 // collisionAxioms instantiates h(a) = h(b) => a = b on every pair of occurring hash applications (opt-in).
 func collisionAxioms(ts []*T) []*T {
